@@ -266,6 +266,20 @@ def template_cases(R, r):
     want = "".join(expected) + tail
     args = ", ".join(S(v, r) if isinstance(v, str) else (gv.dec_literal(v) if isinstance(v, float) else "(%d)" % v) for v in vals)
     R.expect("sprintf(%s, %s)" % (S(template, r), args), want, "sprintf:template", ("sprintf", template, tuple(map(str, vals))))
+    # placeholders whose expression interpolates itself (a function that formats with s / sprintf): the outer
+    # placeholder's own format applies to what the inner call returned
+    j, k2 = r.randrange(len(names)), r.randrange(len(names))
+    inner_spec = gen_spec(r, vals[j])
+    inner_text = "<" + apply_spec(fmt_value(vals[j]), inner_spec) + ">"
+    outer_spec = {"width": r.randint(0, 14)}
+    if r.random() < 0.4:
+        outer_spec["left"] = True
+    other_spec = gen_spec(r, vals[k2])
+    helper = r.choice(["def inner_() s(%s)" % S("<{" + names[j] + spec_text(inner_spec) + "}>", r),
+                       "def inner_() sprintf(%s, %s)" % (S("<{0" + spec_text(inner_spec) + "}>", r), names[j])])
+    template = "[{inner_()" + spec_text(outer_spec) + "}|{" + names[k2] + spec_text(other_spec) + "}|{inner_()}]"
+    want = "[" + apply_spec(inner_text, outer_spec) + "|" + apply_spec(fmt_value(vals[k2]), other_spec) + "|" + inner_text + "]"
+    R.expect("%s; %s; s(%s)" % (defs, helper, S(template, r)), want, "s:nested-interpolation", ("s-nested", template, helper, tuple(map(str, vals))))
 
 
 def run_shard(spec, ctx):
